@@ -175,6 +175,26 @@ def rule_grammar_spans(ctx):
         bad = re.findall(r"Meta::new\((?!\w+,\w+\))[^)]*\)", act)
         ctx.check(R, "grammar/%s#%d/span-arguments-are-markers" % (name, idx + 1), not bad, "Meta::new with computed arguments: %s" % bad, (GR, a["line"]))
     ctx.floor(R, "grammar alternatives with a span", n, 54)
+    # every node a grammar action builds is located at the production's own span: the builders whose first parameter is
+    # a Meta are given `Meta::new(<markers>)` there, not a location taken from a child node
+    takes_meta = {}
+    for f in facts.ast():
+        if not f.startswith("program_structure/src/abstract_syntax_tree/"):
+            continue
+        for q, fn in fns_in_file(f):
+            if fn["name"].startswith("build_") and fn["sig"]["inputs"]:
+                takes_meta[fn["name"]] = fn["sig"]["inputs"][0]["ty"].replace(" ", "") == "Meta"
+    nb = 0
+    for name, idx, a in grammar.all_alts():
+        act = a["action"] or ""
+        for m in re.finditer(r"\b(build_\w+)\(\s*([^,()]*(?:\([^()]*\))?[^,()]*)", act):
+            b_, arg = m.group(1), m.group(2).replace(" ", "")
+            if not takes_meta.get(b_):
+                continue
+            nb += 1
+            if not arg.startswith("Meta::new("):
+                ctx.bad(R, "grammar/%s#%d/%s/located-at-the-production-span" % (name, idx + 1, b_), "`%s` is located at `%s`, not at the span of the production that builds it" % (b_, arg), (GR, a["line"]))
+    ctx.floor(R, "nodes built by grammar actions", nb, 25)
     # arg ranges:  args..arge  bound to @L/@R
     for name, idx, a in grammar.all_alts():
         if a["action"] and "args..arge" in a["action"].replace(" ", ""):
@@ -301,12 +321,108 @@ def rule_synth(ctx):
     ctx.floor(R, "synthesised nodes", n, 40)
 
 
+def eval_parse_error_ranges(ctx, R):
+    """parser_logic::parse_file by evaluation: the generated parser answers with each kind of parse error, located at
+    opaque token positions; the report returned must carry one primary label whose range runs from the start to the
+    end position of the offending token (both ends the error position for an invalid token; 0..0 when the error has
+    no position), in the file being parsed; and the parser must be given the stripped text."""
+    import passeval
+    from finfun import S, Unsupported
+    from passeval import O, Panic, V
+
+    ERR = "parser/src/errors.rs"
+    try:
+        w = passeval.PassWorld([ERR, PL], PL)
+    except Exception:  # noqa: BLE001
+        return False
+    fn = w.free.get("parse_file")
+    if fn is None or "preprocess" not in w.free:
+        return False
+    w.lenient_opaque = True
+    bad = {}
+    n = 0
+    L_, R_, LOC = O("pos:token-start"), O("pos:token-end"), O("pos:error")
+    tok = ("T", (L_, O("token-text"), R_))
+    cases = [
+        ("InvalidToken", V("ParseError", "InvalidToken", location=LOC), (LOC, LOC)),
+        ("UnrecognizedToken", V("ParseError", "UnrecognizedToken", token=tok, expected=("L", ())), (L_, R_)),
+        ("ExtraToken", V("ParseError", "ExtraToken", token=tok), (L_, R_)),
+        ("UnrecognizedEof", V("ParseError", "UnrecognizedEof", location=LOC, expected=("L", ())), None),
+        ("User", V("ParseError", "User", error=O("user-error")), None),
+    ]
+    w.stubs["format_expected"] = lambda args: ("K", "format_expected", tuple(args))
+    for tag, err, want in cases:
+        stripped, FID = O("stripped-text"), O("file-id")
+        seen = {}
+        w.stubs["preprocess"] = lambda args, stripped=stripped: S("Ok", stripped)
+
+        def parse(x, seen=seen, err=err):
+            seen["input"] = x
+            return S("Err", err)
+
+        labels = []
+
+        def new_report(name, args, labels=labels):
+            if name not in ("error", "warning", "info"):
+                return ("K", "Report::" + name, tuple(args))
+            me = []
+
+            def add_primary(*a):
+                labels.append(a)
+                return ("T", ())
+
+            me.append(("O", "report", (("add_primary", ("PY", add_primary)), ("add_secondary", ("PY", lambda *a: labels.append(("secondary",) + a))), ("add_note", ("PY", lambda *a: ("T", ()))))))
+            return me[0]
+
+        w.opaque = (("lang::", lambda name, args: ("O", "parser", (("parse", ("PY", parse)),)) if name == "ParseAstParser::new" else ("K", name, tuple(args))), ("Report::", new_report))
+        try:
+            res = w.call_fn(fn, [O("raw-text"), FID])
+        except Unsupported as u:
+            ctx.note("parser_logic::parse_file is outside the evaluator's subset (%s): shape obligations apply" % u)
+            return False
+        except Panic as p_:
+            bad.setdefault(tag, "panics (%s)" % p_)
+            continue
+        n += 1
+        if seen.get("input") is not stripped:
+            bad.setdefault("input", "%s: the parser is given %r" % (tag, seen.get("input")))
+        if not (isinstance(res, tuple) and len(res) > 2 and res[0] == "S" and res[1] == "Err"):
+            bad.setdefault(tag, "returns %r" % (res,))
+            continue
+        payload = res[2][0]
+        if not (isinstance(payload, tuple) and payload and payload[0] == "O" and payload[1] == "report"):
+            ctx.note("parser_logic::parse_file: the error returned is not a report built here (%r): shape obligations apply" % (payload,))
+            return False
+        if len(labels) != 1 or len(labels[0]) < 2:
+            bad.setdefault(tag, "%d primary label(s) on the report" % len(labels))
+            continue
+        rng, fid = labels[0][0], labels[0][1]
+        if want is None:
+            ok = rng == ("L", ()) or (isinstance(rng, tuple) and rng[0] == "V" and rng[1] == "Range" and rng[3]["start"] == 0 and rng[3]["end"] == 0)
+            det = "expected the empty range 0..0"
+        else:
+            ok = isinstance(rng, tuple) and rng[0] == "V" and rng[1] == "Range" and rng[3]["start"] is want[0] and rng[3]["end"] is want[1]
+            det = "expected %s..%s" % (want[0][1], want[1][1])
+        if not ok:
+            show = "%s..%s" % tuple((x[1] if isinstance(x, tuple) and len(x) > 1 else x) for x in (rng[3]["start"], rng[3]["end"])) if isinstance(rng, tuple) and rng[0] == "V" and rng[1] == "Range" else repr(rng)
+            bad.setdefault(tag, "the label covers %s, %s" % (show, det))
+        if fid is not FID:
+            bad.setdefault(tag, "the label names file %r" % (fid,))
+    ctx.floor(R, "parse error worlds evaluated", n, 5)
+    for tag, _e, _w in cases:
+        ctx.check(R, "parse_file/ParsingError/%s" % tag, tag not in bad, bad.get(tag, "located at the offending token's positions, in the file being parsed"), site(PL, fn))
+    ctx.check(R, "parse_file/parser-reads-the-stripped-text", "input" not in bad, bad.get("input", "the generated parser is given the stripper's output"), site(PL, fn))
+    return True
+
+
 def rule_explicit_ranges(ctx):
     R = "C04.7"
     ctx.rule(R, "the explicit ranges built for parse errors are LALRPOP token positions (byte offsets) or the empty range at 0")
     fn = find_fn(PL, "parse_file")
     if fn is None:
         return ctx.missing(R, "parser_logic::parse_file")
+    if eval_parse_error_ranges(ctx, R):
+        return
     n = 0
     for s in walk(fn["body"]):
         if s["k"] == "Struct" and last(s["path"]) == "ParsingError":
@@ -417,6 +533,67 @@ def rule_labels_untouched(ctx, R="C04.13"):
     ctx.floor(R, "writer / conversion functions", n, 25)
 
 
+POSITION_PRODUCERS = {
+    # functions that turn lexer / grammar positions into ranges: the only places where a location may be computed
+    ("parser/src/parser_logic.rs", "preprocess"): "the position of an unclosed comment opener, from the stripper's own byte counter (C05.1)",
+    ("parser/src/parser_logic.rs", "parse_file"): "LALRPOP token positions of a parse error (C04.7)",
+    ("program_structure/src/abstract_syntax_tree/ast.rs", "new"): "Meta::new(start, end): the grammar's @L / @R positions (C04.5)",
+    ("program_structure/src/program_library/file_definition.rs", "generate_file_location"): "the constructor used by the grammar helpers",
+}
+
+
+def _carrier(a):
+    """an expression that hands on a location it was given: names, fields, getters without arguments, borrows"""
+    a = strip(a)
+    if a["k"] == "Path":
+        return True
+    if a["k"] == "Field":
+        return _carrier(a["base"])
+    if a["k"] == "MethodCall" and not a["args"]:
+        return _carrier(a["recv"])
+    if a["k"] in ("Ref", "Unary", "Paren"):
+        return _carrier(a["e"])
+    if a["k"] == "Range":
+        return render(a).replace(" ", "") == "0..0"  # `no location`: the empty range at the start of the file
+    return False
+
+
+def rule_locations_carried(ctx, R="C04.15"):
+    ctx.rule(R, "locations are carried, not computed: outside the functions that turn lexer / grammar positions into ranges, the range given to a label or stored in a `..location` field is a name, a field or a getter of a node's meta (or the empty range 0..0) - never arithmetic on offsets or text lengths")
+    n_lab = n_fld = 0
+    for f in sorted(facts.ast()):
+        if "tests" in f or f.startswith("program_structure_tests"):
+            continue
+        for q, fn in fns_in_file(f):
+            if not fn.get("body") or "tests" in q or (f, fn["name"]) in POSITION_PRODUCERS or f == PL:
+                continue  # (parser_logic.rs is the module that receives lexer positions: its ranges are decided by C04.7 / C05.1)
+            sites = []
+            for m in walk(fn["body"]):
+                if m["k"] == "MethodCall" and m["method"] in ("add_primary", "add_secondary") and len(m["args"]) >= 2:
+                    sites.append(("label", m, m["args"][0]))
+                elif m["k"] == "Struct":
+                    for x in m["fields"]:
+                        if x["name"].endswith("location") and x.get("e") is not None:
+                            sites.append(("field `%s` of %s" % (x["name"], last(m["path"])), m, x["e"]))
+            for what, node, arg in sites:
+                a = strip(arg)
+                le = let_env(fn["body"], node)
+                d = 0
+                while a["k"] == "Path" and a["path"] in le and d < 6:
+                    a = strip(le[a["path"]])
+                    d += 1
+                if what == "label":
+                    n_lab += 1
+                else:
+                    n_fld += 1
+                ok = _carrier(a)
+                if not ok:
+                    ctx.bad(R, "%s::%s/%s-location-carried" % (f.rsplit("/", 1)[-1][:-3], fn["name"], "label" if what == "label" else what.split("`")[1]), "the %s is located at `%s`, computed here" % (what, render(a)[:90]), site(f, node))
+    ctx.floor(R, "label locations inspected", n_lab, 40)
+    ctx.floor(R, "location fields inspected", n_fld, 30)
+    ctx.check(R, "locations-carried/no-computed-location", True, "%d label locations and %d location fields are names, fields or getters" % (n_lab, n_fld))
+
+
 def rule_file_table(ctx):
     R = "C04.11"
     ctx.rule(R, "there is one file table: only FileLibrary creates or extends a codespan SimpleFiles, only the parser adds files to the library, and the terminal writer resolves labels against the storage of the library it was given (so a label's file id means the same file for every consumer)")
@@ -467,6 +644,7 @@ def run(ctx):
     rule_file_table(ctx)
     rule_labels_untouched(ctx)
     rule_declaration_lookup(ctx)
+    rule_locations_carried(ctx)
     ctx.rule("C04.10", "Report::add_primary / add_secondary attach exactly the byte range and file id they are given (no widening, shifting or re-anchoring)")
     c03.rule_label_passthrough(ctx, "C04.10")
     ctx.include("C04.1", "the comment stripper is equivalent to the reference lexer for all strings - in particular every byte of the input corresponds to exactly one byte of the output (shared with C05.1)", lambda c: c05.run(c), only=["preprocess/"])
